@@ -84,7 +84,9 @@ func buildSeed(s seedSpec) (*dbh.Snapshot, error) {
 			only(1)
 		}
 		if err := in.DB.Set(context.Background(), fmt.Sprintf("s%03d", i), dbh.Content(1000+i, 8)); err != nil {
-			return nil, fmt.Errorf("seeding: %w", err)
+			// the seed is written through the public API by the tree under test: a root that refuses a
+			// write while it is the only one with space is the property failing, not the harness
+			return nil, &seedWriteError{fmt.Sprintf("Set number %d of the seed (%d entries wanted in root 0, limit %d) failed: %s", i+1, n, s.limit(), dbh.ShortErr(err))}
 		}
 	}
 	vrt.Quiesce()
@@ -99,6 +101,10 @@ func buildSeed(s seedSpec) (*dbh.Snapshot, error) {
 	seedCache[s] = sn
 	return sn, nil
 }
+
+type seedWriteError struct{ msg string }
+
+func (e *seedWriteError) Error() string { return e.msg }
 
 type dirState map[string]int // "<root index>/<dir name>" -> entries
 
@@ -303,6 +309,10 @@ func (f *family) run(seed seedSpec, ops string, probeRoot, probePerm int) (o *en
 		vrt.SetBranching(false)
 		sn, err := buildSeed(seed)
 		if err != nil {
+			if we, ok := err.(*seedWriteError); ok {
+				o.Mismatch = &enum.Mismatch{What: fmt.Sprintf("seed %+v: %s", seed, we.msg), Sig: "dirs|root-offers-no-directory"}
+				return
+			}
 			o.Infra = err.Error()
 			return
 		}
